@@ -4,9 +4,24 @@ use crate::Emit;
 use acpi_tables::aml;
 use acpi_tables::Aml;
 
+/// a sink that implements only the mandatory method: word / dword / qword / vec arrive through the trait's defaults
+struct ByteOnly(Vec<u8>);
+impl acpi_tables::AmlSink for ByteOnly {
+    fn byte(&mut self, b: u8) {
+        self.0.push(b);
+    }
+}
+
+/// the object's bytes as a vector receives them; if a sink that relies on the trait's default methods receives a different
+/// stream, that stream is reported instead, so that the Spec decoder judges what such a sink would hold
 fn ser(x: &dyn Aml) -> Vec<Ev> {
     let mut v = Vec::new();
     x.to_aml_bytes(&mut v);
+    let mut b = ByteOnly(Vec::new());
+    x.to_aml_bytes(&mut b);
+    if b.0 != v {
+        return vec![Ev::Bytes(b.0)];
+    }
     vec![Ev::Bytes(v)]
 }
 
@@ -171,6 +186,28 @@ fn text_case(t: &[u8]) -> Sx {
 }
 
 pub fn gen_c09(tier: &str, rng: &mut Rng, emit: &mut Emit) {
+    // every combination of segment lengths 0..=8 for paths of 1..=4 segments, rooted or not (only all-4 tuples are well formed):
+    // several short segments whose lengths add up to a multiple of the 5-byte stride must be refused like any other
+    for nseg in 1..=4usize {
+        let total = 9usize.pow(nseg as u32);
+        for code in 0..total {
+            let mut c = code;
+            let mut segs: Vec<Vec<u8>> = Vec::new();
+            for _ in 0..nseg {
+                let len = c % 9;
+                c /= 9;
+                segs.push((0..len).map(|i| if i == 0 { *rng.pick(LEAD) } else { *rng.pick(TAIL) }).collect());
+            }
+            if nseg == 4 && code % 3 != 0 && tier != "thorough" {
+                continue;
+            }
+            emit.case(4, text_case(&path_text(code % 2 == 1, &segs)));
+            if nseg <= 3 {
+                emit.case(4, text_case(&path_text(code % 2 == 0, &segs)));
+            }
+        }
+    }
+
     // every segment count 1..=255 (and a few beyond, judged by C18 as well), rooted or not
     for k in (1..=255usize).chain([256, 257, 300, 511, 512, 1000]) {
         for root in [false, true] {
